@@ -954,7 +954,9 @@ def Safe (own : Owner) (beh : Behaviour) : Prop := own.holdsRef = true ∨ NoDes
 /-- Reference accounting: every open freeze region holds a reference (when the emitters hold references at all), and
     while a walker runs some emitter or closing region holds one more, besides the handlers' own. -/
 def RefOk (own : Owner) (st : St) : Prop :=
-  st.frozenRefs = (if own.holdsRef then st.pen.freeze else 0) ∧
+  (st.frozenRefs = (if own.holdsRef then st.pen.freeze else 0) ∧
+   -- a change is remembered only inside a frozen region: `thaw` clears the flag before it delivers the batched occurrence
+   (st.pen.freeze = 0 → st.pen.changed = false)) ∧
   (own.holdsRef = true → b2n st.userRef + st.frozenRefs + b2n st.isIter ≤ st.refs)
 
 /-- What a task needs of the state it starts in. -/
@@ -1009,9 +1011,9 @@ theorem Inv.of_userRef {st : St} (h : Inv st) (u : Bool) : Inv { st with userRef
 
 /-- RefOk only looks at the guard, the flag and the count. -/
 theorem RefOk.of_eq {own : Owner} {st st' : St} (h : RefOk own st) (hi : st'.isIter = st.isIter) (hu : st'.userRef = st.userRef)
-    (hr : st'.refs = st.refs) (hp : st'.pen.freeze = st.pen.freeze := by rfl) (hf : st'.frozenRefs = st.frozenRefs := by rfl) :
-    RefOk own st' := by
-  refine ⟨by rw [hf, hp]; exact h.1, fun ho => ?_⟩
+    (hr : st'.refs = st.refs) (hp : st'.pen.freeze = st.pen.freeze := by rfl) (hf : st'.frozenRefs = st.frozenRefs := by rfl)
+    (hc : st'.pen.changed = st.pen.changed := by rfl) : RefOk own st' := by
+  refine ⟨⟨by rw [hf, hp]; exact h.1.1, by rw [hp, hc]; exact h.1.2⟩, fun ho => ?_⟩
   rw [hu, hr, hi, hf]; exact h.2 ho
 
 /-- `Inv` looks at the chain, the guard, the sweep flag, the slots and the trace only (and that the owner lives). -/
@@ -1089,7 +1091,7 @@ theorem good_runEvent {fuel : Nat} (ih : Good own beh fuel) (wf : Bool) (ev : In
       fun st3 e1 e2 e3 e4 e5 => l2.trans (Life.same e1 e2 e3 e4 e5)
     have hit2 : st2.isIter = true := s2.iter
     have hro3 : ∀ st3 : St, st3.refs = st2.refs → st3.userRef = st2.userRef →
-        st3.pen.freeze = st2.pen.freeze → st3.frozenRefs = st2.frozenRefs → RefOk own st3 := by
+        st3.pen = st2.pen → st3.frozenRefs = st2.frozenRefs → RefOk own st3 := by
       intro st3 e1 e3 e4 e5
       refine ⟨by rw [e5, e4]; exact hro2.1, fun ho => ?_⟩
       have := hro2.2 ho
@@ -1620,37 +1622,39 @@ theorem good_pen {fuel : Nat} (ih : Good own beh fuel) (steps : List PenStep) (s
             obtain ⟨seg1, hseg1, _⟩ := s1.logExt
             exact Or.inr ⟨hd2, rfl, by rw [← s1.iter]; exact hni, htr, seg ++ seg1, by rw [hseg, hseg1, List.append_assoc]⟩
     -- a change of the pen's attributes only
-    have hpen : ∀ p : PenSt, p.freeze = st.pen.freeze →
+    have hpen : ∀ p : PenSt, p.freeze = st.pen.freeze → (p.freeze = 0 → p.changed = false) →
         Inv { st with pen := p } ∧ RefOk own { st with pen := p } ∧ Step (none, none) st { st with pen := p } := by
-      intro p hp
-      exact ⟨h.of_same rfl rfl rfl rfl rfl h.alive.1 h.alive.2, hro.of_eq rfl rfl rfl hp rfl,
+      intro p hp hpc
+      refine ⟨h.of_same rfl rfl rfl rfl rfl h.alive.1 h.alive.2, ⟨⟨?_, hpc⟩, hro.2⟩,
         Step.of_same rfl rfl rfl rfl rfl (Life.same rfl rfl rfl hp rfl)⟩
+      show st.frozenRefs = if own.holdsRef = true then p.freeze else 0
+      rw [hp]; exact hro.1.1
     -- `changed(pen)` after such a change
-    have hchanged : ∀ p : PenSt, p.freeze = st.pen.freeze →
+    have hchanged : ∀ p : PenSt, p.freeze = st.pen.freeze → p.changed = st.pen.changed →
         Post own (.pen (step :: rest)) st
           (match (if p.freeze = 0 then exec Cfg.repaired own beh fuel (.emitter false 1) { st with pen := p }
                   else .ok ({ st with pen := { p with changed := true } }, 0) : Res (St × Int)) with
            | .ok (st2, _) => exec Cfg.repaired own beh fuel (.pen rest) st2
            | e => e) := by
-      intro p hp
+      intro p hp hpc
       by_cases hz : p.freeze = 0
       · rw [if_pos hz]
-        obtain ⟨a, b, c⟩ := hpen p hp
+        obtain ⟨a, b, c⟩ := hpen p hp (fun hz' => by rw [hpc]; exact hro.1.2 (by rw [← hp]; exact hz'))
         exact htask (.emitter false 1) _ rfl a b c trivial
       · rw [if_neg hz]
-        obtain ⟨a, b, c⟩ := hpen { p with changed := true } hp
+        obtain ⟨a, b, c⟩ := hpen { p with changed := true } hp (fun hz' => absurd hz' hz)
         exact hcont _ a b c
     simp only [exec]
     rw [if_neg (show ¬ st.dead = true by rw [hnd]; simp)]
     cases step with
-    | setBool v => exact hchanged { st.pen with bold := some v } rfl
+    | setBool v => exact hchanged { st.pen with bold := some v } rfl rfl
     | setCol n =>
-      obtain ⟨a, b, c⟩ := hpen { st.pen with fg := some n, rgb := none } rfl
+      obtain ⟨a, b, c⟩ := hpen { st.pen with fg := some n, rgb := none } rfl hro.1.2
       exact htask (.emitter false 1) _ rfl a b c trivial
     | setRgb r =>
       simp only
       cases st.pen.fg.isSome with
-      | true => simp only [if_true]; exact hchanged { st.pen with rgb := some r } rfl
+      | true => simp only [if_true]; exact hchanged { st.pen with rgb := some r } rfl rfl
       | false => simp only [Bool.false_eq_true, if_false]; exact hcont st h hro (Step.refl _ st)
     | copyAttrFg t => exact htask (.penRegion (attrFgBody t)) st rfl h hro (Step.refl _ st) trivial
     | loopFg t ow =>
@@ -1661,7 +1665,7 @@ theorem good_pen {fuel : Nat} (ih : Good own beh fuel) (steps : List PenStep) (s
     | loopBold t ow =>
       simp only
       cases loopCopiesBold st.pen t ow with
-      | true => simp only [if_true]; exact hchanged { st.pen with bold := some (t.bold.getD false) } rfl
+      | true => simp only [if_true]; exact hchanged { st.pen with bold := some (t.bold.getD false) } rfl rfl
       | false => simp only [Bool.false_eq_true, if_false]; exact hcont st h hro (Step.refl _ st)
 
 /-- A freeze..thaw region: the reference `freeze` takes keeps the owner alive through the region's body; `thaw`
@@ -1682,8 +1686,8 @@ theorem good_penRegion {fuel : Nat} (hs : Safe own beh) (ih : Good own beh fuel)
       pen := { st.pen with freeze := st.pen.freeze + 1 },
       refs := if own.holdsRef then st.refs + 1 else st.refs,
       frozenRefs := if own.holdsRef then st.frozenRefs + 1 else st.frozenRefs } := by
-    have e := hro.1
-    refine ⟨?_, fun ho => ?_⟩
+    have e := hro.1.1
+    refine ⟨⟨?_, fun hz => by simp at hz⟩, fun ho => ?_⟩
     · show (if own.holdsRef = true then st.frozenRefs + 1 else st.frozenRefs) = if own.holdsRef = true then st.pen.freeze + 1 else 0
       cases hh : own.holdsRef <;> simp [hh] at e ⊢ <;> omega
     · have := hro.2 ho
@@ -1710,14 +1714,16 @@ theorem good_penRegion {fuel : Nat} (hs : Safe own beh) (ih : Good own beh fuel)
       have hf12 : st2.frozenRefs = if own.holdsRef = true then st.frozenRefs + 1 else st.frozenRefs := hf12
       have hi2 : st2.isIter = st.isIter := s2.iter
       -- the state `thaw` continues in, whether or not it delivers the batched occurrence
-      have hthaw : ∀ (c : Bool) (st3 : St),
+      have hthaw : ∀ (c : Bool) (st3 : St), (st2.pen.freeze = 1 → c = false) →
           st3 = ({ st2 with pen := { st2.pen with freeze := st2.pen.freeze - 1, changed := c }
                             frozenRefs := if own.holdsRef then st2.frozenRefs - 1 else st2.frozenRefs } : St) →
           Inv st3 ∧ RefOk own st3 ∧ TaskOk own beh (.runEvent false 1) st3 := by
-        intro c st3 he
+        intro c st3 hcz he
         subst he
-        refine ⟨h2.of_same rfl rfl rfl rfl rfl h2.alive.1 h2.alive.2, ⟨?_, fun ho => ?_⟩, fun ho => ?_⟩
-        · have e := hro2.1
+        refine ⟨h2.of_same rfl rfl rfl rfl rfl h2.alive.1 h2.alive.2, ⟨⟨?_, fun hz => hcz (by
+          have hz' : st2.pen.freeze - 1 = 0 := hz
+          omega)⟩, fun ho => ?_⟩, fun ho => ?_⟩
+        · have e := hro2.1.1
           show (if own.holdsRef = true then st2.frozenRefs - 1 else st2.frozenRefs) = if own.holdsRef = true then st2.pen.freeze - 1 else 0
           cases hh : own.holdsRef <;> simp [hh] at e ⊢ <;> omega
         · have := hro2.2 ho
@@ -1775,7 +1781,7 @@ theorem good_penRegion {fuel : Nat} (hs : Safe own beh) (ih : Good own beh fuel)
       cases hem : (decide (st2.pen.freeze = 1) && st2.pen.changed) with
       | false =>
         simp only [Bool.false_eq_true, if_false]
-        obtain ⟨h3, hro3, _⟩ := hthaw st2.pen.changed _ rfl
+        obtain ⟨h3, hro3, _⟩ := hthaw st2.pen.changed _ (fun h1 => by simpa [h1] using hem) rfl
         obtain ⟨seg2, hseg2, hf2⟩ := s2.logExt
         refine hfin _ h3 hro3 hi2 s2.keysIter s2.occMono ⟨seg2, hseg2, hf2⟩ s2.slotsExt hr12 hu12 ?_ ?_
         · show st2.pen.freeze - 1 = st.pen.freeze
@@ -1784,7 +1790,7 @@ theorem good_penRegion {fuel : Nat} (hs : Safe own beh) (ih : Good own beh fuel)
           cases hh : own.holdsRef <;> simp [hh] at hf12 ⊢ <;> omega
       | true =>
         simp only [if_true]
-        obtain ⟨h3, hro3, hok3⟩ := hthaw false _ rfl
+        obtain ⟨h3, hro3, hok3⟩ := hthaw false _ (fun _ => rfl) rfl
         have hw3 := ih (.runEvent false 1) _ h3 hro3 hok3
         cases hres3 : exec Cfg.repaired own beh fuel (.runEvent false 1)
             { st2 with pen := { st2.pen with freeze := st2.pen.freeze - 1, changed := false },
@@ -2276,6 +2282,102 @@ theorem emitter_destroys (hs : Safe own beh) (hh : own.holdsRef = true) {fuel : 
 
 end
 
+/-! ### a pen operation that changes nothing is not an occurrence -/
+
+section
+variable (own : Owner) (beh : Behaviour)
+
+theorem exec_pen_nil {cfg : Cfg} {fuel : Nat} {st st2 : St} {r : Int}
+    (hex : exec cfg own beh fuel (.pen []) st = .ok (st2, r)) : st2 = st := by
+  cases fuel with
+  | zero => simp [exec] at hex
+  | succ f => simp only [exec] at hex; injection hex with hex; injection hex with e _; exact e.symm
+
+theorem exec_pen_loopBold_skip {cfg : Cfg} {fuel : Nat} {st st2 : St} {r : Int} {t : Tmpl} {ow : Bool}
+    (hbd : loopCopiesBold st.pen t ow = false)
+    (hex : exec cfg own beh fuel (.pen [.loopBold t ow]) st = .ok (st2, r)) : st2 = st := by
+  cases fuel with
+  | zero => simp [exec] at hex
+  | succ f =>
+    simp only [exec] at hex
+    split at hex
+    · injection hex with hex; injection hex with e _; exact e.symm
+    · rw [hbd] at hex
+      simp only [Bool.false_eq_true, if_false] at hex
+      exact exec_pen_nil own beh hex
+
+theorem exec_pen_loops_skip {cfg : Cfg} {fuel : Nat} {st st2 : St} {r : Int} {t : Tmpl} {ow : Bool}
+    (hfg : loopCopiesFg st.pen t ow = false) (hbd : loopCopiesBold st.pen t ow = false)
+    (hex : exec cfg own beh fuel (.pen [.loopFg t ow, .loopBold t ow]) st = .ok (st2, r)) : st2 = st := by
+  cases fuel with
+  | zero => simp [exec] at hex
+  | succ f =>
+    simp only [exec] at hex
+    split at hex
+    · injection hex with hex; injection hex with e _; exact e.symm
+    · rw [hfg] at hex
+      simp only [Bool.false_eq_true, if_false] at hex
+      exact exec_pen_loopBold_skip own beh hbd hex
+
+theorem exec_unref_alive {cfg : Cfg} {fuel : Nat} {st st2 : St} {r : Int} (hd : st.dead = false) (hr : 2 ≤ st.refs)
+    (hex : exec cfg own beh fuel .unref st = .ok (st2, r)) : st2 = { st with refs := st.refs - 1 } := by
+  cases fuel with
+  | zero => simp [exec] at hex
+  | succ f =>
+    simp only [exec] at hex
+    rw [if_neg (by rw [hd]; simp; omega), if_neg (by simp; omega)] at hex
+    injection hex with hex; injection hex with e _; exact e.symm
+
+/-- `tickit_pen_copy(pen, t, overwrite)` when the pen already satisfies the template (nothing to copy): no handler is
+    called and nothing is recorded — at top level, inside a handler, inside the batched occurrence of an enclosing
+    region alike — because a change is only remembered inside a frozen region and `thaw` clears the flag *before* it
+    delivers (`RefOk`'s third clause).  The owner lives on and its chain is untouched. -/
+theorem region_nothing_to_copy {fuel : Nat} {st st' : St} {r : Int} {t : Tmpl} {ow : Bool} (h : Inv st) (hro : RefOk own st)
+    (hfg : loopCopiesFg st.pen t ow = false) (hbd : loopCopiesBold st.pen t ow = false)
+    (hex : exec Cfg.repaired own beh fuel (.penRegion [.loopFg t ow, .loopBold t ow]) st = .ok (st', r)) :
+    st'.log = st.log ∧ st'.dead = false ∧ st'.list = st.list ∧ st'.pen = st.pen ∧ st'.refs = st.refs := by
+  have hnd := h.alive.2
+  have hr := h.alive.1
+  have hpc := hro.1.2
+  cases fuel with
+  | zero => simp [exec] at hex
+  | succ fuel =>
+    simp only [exec] at hex
+    rw [if_neg (by rw [hnd]; simp)] at hex
+    cases hres : exec Cfg.repaired own beh fuel (.pen [.loopFg t ow, .loopBold t ow]) { st with
+        pen := { st.pen with freeze := st.pen.freeze + 1 },
+        refs := if own.holdsRef then st.refs + 1 else st.refs,
+        frozenRefs := if own.holdsRef then st.frozenRefs + 1 else st.frozenRefs } with
+    | outOfFuel => rw [hres] at hex; simp at hex
+    | ub w => rw [hres] at hex; simp at hex
+    | ok p =>
+      obtain ⟨st2, r2⟩ := p
+      rw [hres] at hex
+      have e2 := exec_pen_loops_skip own beh (st := { st with
+        pen := { st.pen with freeze := st.pen.freeze + 1 },
+        refs := if own.holdsRef then st.refs + 1 else st.refs,
+        frozenRefs := if own.holdsRef then st.frozenRefs + 1 else st.frozenRefs }) hfg hbd hres
+      subst e2
+      simp only at hex
+      rw [if_neg (by rw [hnd]; simp)] at hex
+      have hem : (decide (st.pen.freeze + 1 = 1) && st.pen.changed) = false := by
+        by_cases hz : st.pen.freeze = 0
+        · simp [hz, hpc hz]
+        · simp [hz]
+      rw [hem] at hex
+      simp only [Bool.false_eq_true, if_false] at hex
+      cases hh : own.holdsRef with
+      | false =>
+        simp only [hh, Bool.false_eq_true, if_false] at hex
+        injection hex with hex; injection hex with e1 _
+        rw [← e1]; simp [hnd]
+      | true =>
+        simp only [hh, if_true] at hex
+        have e3 := exec_unref_alive own beh (by exact hnd) (by show 2 ≤ st.refs + 1; omega) hex
+        rw [e3]; simp [hnd]
+
+end
+
 /-! ### top level: operations and histories -/
 
 /-- Between operations no walker runs (hence there are no tombstones: `Inv.tombIter`). -/
@@ -2289,7 +2391,7 @@ theorem Top.no_tombstones {st : St} (h : Top st) : ∀ b ∈ st.list, b.id ≠ T
   rw [h.2] at this; cases this
 
 theorem RefOk.init (own : Owner) : RefOk own St.init := by
-  refine ⟨by simp [St.init], fun _ => by simp [St.init]⟩
+  refine ⟨⟨by simp [St.init], by simp [St.init]⟩, fun _ => by simp [St.init]⟩
 
 /-- identifiers handed to `unbind` are identifiers, not the tombstone mark -/
 def OpOk : Op → Prop
